@@ -6,6 +6,7 @@
 import GocoinV.Proofs.C13
 import GocoinV.Proofs.C13Sig
 import GocoinV.Proofs.C13Demo
+import GocoinV.Proofs.C13Final
 namespace GocoinV.Props.C13
 open GocoinV GocoinV.WalletTx GocoinV.WalletSpec
 
@@ -132,7 +133,9 @@ theorem change_is_own_address (H : Addr.Hashes) (c : Cfg) (pubs : List Bytes) (c
   obtain ⟨u, hu, ho, hf⟩ := changeAddr_default H c _ coins a hc h
   exact ⟨u, hu, ho, outScript_fromPkScript_own H c pubs u.script a hash_len pub_len (hshape u hu ho) hf⟩
 
-/-- **signatures_verify.** For every input `i` of a transaction handed to sign_tx without witness data whose spent
+/-- **signatures_verify_templates** (first version, kept: it holds for EVERY crypto instance satisfying the named
+    sign/verify hypotheses, against the template reading `Spec.verifyInput`; superseded by `signatures_verify` below,
+    which is about the real script rules and imports C03's theorems). For every input `i` of a transaction handed to sign_tx without witness data whose spent
     output is one of the wallet's own four types (P2PKH, P2WPKH, P2SH-P2WPKH when not in bech32 mode, P2TR key
     path), the signed transaction's input `i` passes `Spec.verifyInput` — the specialisation of consensus +
     standard script verification to these templates: right template, right public key (HASH160 / x-only match),
@@ -148,7 +151,7 @@ theorem change_is_own_address (H : Addr.Hashes) (c : Cfg) (pubs : List Bytes) (c
       `no_cross` — no key's HASH160 equals another key's P2SH-redeem hash (or, in bech32 mode, 20 zero bytes);
       `haddr` — NewAddrFromPkScript returns non-nil for the spent script (bech32 encoding succeeds);
       `hss` — a native witness input arrives with an empty scriptSig (always so for -send; the supplier's duty for -raw). -/
-theorem signatures_verify (H : Addr.Hashes) (C : Crypto) (S : Signer) (c : Cfg) (pubs : List Bytes) (ms : MsFn)
+theorem signatures_verify_templates (H : Addr.Hashes) (C : Crypto) (S : Signer) (c : Cfg) (pubs : List Bytes) (ms : MsFn)
     (t : Tx) (spent : List TxOut) (i : Nat) (inp : TxIn) (uo : TxOut)
     (hash_same : C.hash160 = H.hash160) (hash_len : ∀ b, (H.hash160 b).length = 20)
     (sign_verify_ecdsa : ∀ k kr, (keyTable H c.bech32 pubs)[k]? = some kr → ∀ d, C.ecdsaVerify kr.pub (S.ecdsa k d) d = true)
@@ -165,6 +168,123 @@ theorem signatures_verify (H : Addr.Hashes) (C : Crypto) (S : Signer) (c : Cfg) 
     verifyInput C (runRaw H c (keyTable H c.bech32 pubs) t (spent.map some) (sigOf C S spent) ms).1 spent i = true :=
   verify_aux H C S c pubs ms t spent i inp uo hash_same hash_len sign_verify_ecdsa der_len sign_verify_schnorr
     schnorr_len no_cross pub_len hwit hin hsp hms hown haddr hss
+
+/-! ### the four owned templates under the REAL script rules (`ScriptSpec.verifyScript`, the reference semantics that
+    C01's `script_equiv` proves gocoin's `VerifyTxScript` equal to) — every oracle instance, every flag set that
+    satisfies Core's flag dependencies (consensus flags and all standardness flags alike) -/
+
+/-- P2PKH: scriptSig `<sig‖ht> <pub>` with an empty witness is accepted when HASH160(pub) = h and (sig‖ht, pub) is a
+    `GoodSig` for the legacy digest of the scriptPubKey: strict DER, low S, defined hash type, compressed key, ECDSA
+    equation. `hne`: the signature bytes are not the 20-byte hash itself (FindAndDelete would cut it out of the
+    script code). -/
+theorem p2pkh_accepted (O : Script.Oracles) (tx : Script.TxCtx) (f : ScriptSpec.Flags) (h sigh pub : Bytes)
+    (hf : ScriptSpec.FlagsOk f) (hl : h.length = 20)
+    (hss : tx.sigScript = push1 sigh ++ push1 pub) (hw : tx.witness = [])
+    (hp : pub.length = 33) (hh : O.hash160 pub = h) (hne : sigh ≠ h)
+    (hg : Proofs.C13S.GoodSig O .base (p2pkhScript h) sigh pub) :
+    ScriptSpec.verifyScript O tx (p2pkhScript h) f = .ok () :=
+  Proofs.C13S.verifyScript_p2pkh O tx f {} h sigh pub hf hl hss hw (by omega) (by omega) hh hne hg
+
+/-- P2WPKH: empty scriptSig, witness `[sig‖ht, pub]`, BIP143 digest with script code DUP HASH160 <h> EQUALVERIFY
+    CHECKSIG. `htrue`: the program is not "false" as a stack element (Core requires a true top after running the
+    scriptPubKey, so a P2WPKH output to the all-zero hash is unspendable). -/
+theorem p2wpkh_accepted (O : Script.Oracles) (tx : Script.TxCtx) (f : ScriptSpec.Flags) (h sigh pub : Bytes)
+    (hf : ScriptSpec.FlagsOk f) (hl : h.length = 20) (hss : tx.sigScript = []) (hw : tx.witness = [sigh, pub])
+    (hp : pub.length = 33) (hh : O.hash160 pub = h) (htrue : ScriptSpec.castToBool h = true)
+    (hg : Proofs.C13S.GoodSig O .witnessV0 (p2pkhScript h) sigh pub) :
+    ScriptSpec.verifyScript O tx (p2wpkhScript h) f = .ok () :=
+  Proofs.C13S.verifyScript_p2wpkh O tx f {} h sigh pub hf hl hss hw (by omega) hh htrue hg
+
+/-- P2SH-P2WPKH: scriptSig is exactly the push of the redeem script `0 <h>`, witness `[sig‖ht, pub]`. -/
+theorem p2sh_p2wpkh_accepted (O : Script.Oracles) (tx : Script.TxCtx) (f : ScriptSpec.Flags) (sh h sigh pub : Bytes)
+    (hf : ScriptSpec.FlagsOk f) (hl : h.length = 20) (hshl : sh.length = 20)
+    (hss : tx.sigScript = push1 (p2wpkhScript h)) (hw : tx.witness = [sigh, pub])
+    (hp : pub.length = 33) (hh : O.hash160 pub = h) (hsh : O.hash160 (p2wpkhScript h) = sh)
+    (htrue : ScriptSpec.castToBool h = true)
+    (hg : Proofs.C13S.GoodSig O .witnessV0 (p2pkhScript h) sigh pub) :
+    ScriptSpec.verifyScript O tx (p2shScript sh) f = .ok () :=
+  Proofs.C13S.verifyScript_p2sh_p2wpkh O tx f {} sh h sigh pub hf hl hshl hss hw (by omega) hh hsh htrue hg
+
+/-- P2TR key path: empty scriptSig, witness `[sig]`, 64-byte signature (SIGHASH_DEFAULT) that verifies under the
+    output key for the BIP341 key-path digest without annex. -/
+theorem p2tr_keypath_accepted (O : Script.Oracles) (tx : Script.TxCtx) (f : ScriptSpec.Flags) (q sig d : Bytes)
+    (hf : ScriptSpec.FlagsOk f) (hl : q.length = 32) (hss : tx.sigScript = []) (hw : tx.witness = [sig])
+    (hs : sig.length = 64) (htrue : ScriptSpec.castToBool q = true)
+    (hd : O.sigHashTap none [] 0 0 false = some d) (hv : O.schnorrVerify q sig d = some true) :
+    ScriptSpec.verifyScript O tx (p2trScript q) f = .ok () :=
+  Proofs.C13S.verifyScript_p2tr O tx f {} q sig d hf hl hss hw hs htrue hd hv
+
+/-- non-vacuity of `FlagsOk`: gocoin's standard flag set (all 21 bits) and the consensus set -/
+example : ScriptSpec.FlagsOk (ScriptSpec.Flags.ofMask 0x1FFFFF) ∧ ScriptSpec.FlagsOk (ScriptSpec.Flags.ofMask 0x20E15) := by
+  decide
+
+/-- What C03's signer hands out IS a good signature for the script rules (imported: `own_signature_accepted`,
+    `sign_canonical`, `generator_order`; new: the DER bridges `strict_append`, `derS_append`, `parseBytes_append`):
+    for a secret 0 < d < n, whenever `Signature.Sign` succeeds with R ≠ 0 on the digest the oracle hands out for
+    (script code, SIGHASH_ALL), the bytes `Signature.Bytes() ‖ 01` with the compressed key of d·G satisfy everything
+    OP_CHECKSIG asks under all flags, for every oracle whose `ecdsaVerify` is C03's model of `btc.EcdsaVerify`. -/
+theorem own_signature_is_good (O : Script.Oracles) (sv : Script.SigVersion) (code : Bytes) (d k : Nat) (m : Bytes)
+    (hd0 : 0 < d) (hdn : d < Secp.n) (hok : Proofs.C13L.SignOk d m k)
+    (hdig : (if sv == .witnessV0 then O.sigHashWitV0 code 1 else O.sigHashLegacy code 1) = some m)
+    (hO : ∀ pk sg dg, O.ecdsaVerify pk sg dg = some (Model.Sig.ecdsaVerify true pk sg dg)) :
+    Proofs.C13S.GoodSig O sv code (Proofs.C13L.ecdsaDer d m k ++ [1]) (Secp.ser33 (Secp.mul d Secp.G)) :=
+  Proofs.C13L.goodSig_of_sign O sv code d k m hd0 hdn hok hdig hO
+
+/-- non-vacuity: `Sign` succeeds with R ≠ 0 for secret 1, digest 01, nonce 1 -/
+example : Proofs.C13L.SignOk 1 [1] 1 := by
+  unfold Proofs.C13L.SignOk
+  have h : (Model.Sig.sign 1 (beVal [1]) 1).map (fun t => decide (t.1 ≠ 0)) = some true := by decide +kernel
+  cases hs : Model.Sig.sign 1 (beVal [1]) 1 with
+  | none => rw [hs] at h; simp at h
+  | some t => obtain ⟨r, s, c⟩ := t; rw [hs] at h; exact ⟨r, s, c, rfl, by simpa using h⟩
+
+/-- **signatures_verify.** For every input `i` of a transaction handed to sign_tx without witness data whose spent
+    output is one of the wallet's own four types (P2PKH, P2WPKH, P2SH-P2WPKH when not in bech32 mode, P2TR key path),
+    the signed transaction's input `i` passes the REAL script rules `ScriptSpec.verifyScript` — scriptSig and witness
+    as sign_tx assembled them (`txCtxOf`), the spent scriptPubKey, EVERY flag set satisfying Core's flag dependencies
+    (so consensus and standardness alike: P2SH, WITNESS, TAPROOT, STRICTENC, DERSIG, LOW_S, NULLFAIL, SIGPUSHONLY,
+    MINIMALDATA, CLEANSTACK, WITNESS_PUBKEYTYPE …) — for every oracle instance `O` whose `ecdsaVerify` /
+    `schnorrVerify` ARE C03's models of `btc.EcdsaVerify` / `btc.SchnorrVerify` (`hO_*`), with the wallet's keys the
+    compressed public keys of secrets in [1, n−1] and the signer C03's `Signature.Sign`+`Bytes()` / `SchnorrSign`
+    (`C03Signer`; nonce source and aux randomness arbitrary). The ECDSA/Schnorr sign⇒verify facts are IMPORTED from
+    C03 (`own_signature_accepted`, `sign_canonical`, `schnorr_sign_verifies`, `generator_order`), not assumed; by
+    C01's `script_equiv` the same verdict is gocoin's `VerifyTxScript`.
+    Remaining hypotheses:
+      `hcalls`   the (up to three) signing calls for this input succeed with R ≠ 0 — the ONE hypothesis inherited from
+                 C03 (`Sign` does not refuse R = 0);
+      `dig_*`    digest signed = digest verified: the oracle's digest for the SIGNED transaction is the digest the
+                 wallet computed from the skeleton of the unsigned one (C02's models read nothing else — see OPEN);
+      `no_clash` the signature bytes ‖ 01 are not the 20-byte key hash itself (FindAndDelete; needs a 19-byte DER
+                 signature equal to a HASH160);  `nonzero` no key hash / x-only key is "false" as a stack element
+                 (all-zero, Core refuses such a witness program);  `no_cross`, `haddr`, `hss` as in the first version.
+    -- OPEN: `digests_read_skeleton_only` — instantiate `C` with C02's `signatureHash` / `witnessSigHash` /
+    `taprootSigHash` on the wire transaction and derive `dig_*` from "these functions do not read scriptSig or
+    witness" (induction over `legacyIns`, `prevoutsBytes`, `sequencesBytes`); not done in this pass. -/
+theorem signatures_verify (H : Addr.Hashes) (O : Script.Oracles) (C : Crypto) (K : C03Signer) (f : ScriptSpec.Flags)
+    (c : Cfg) (ms : MsFn) (t : Tx) (spent : List TxOut) (i : Nat) (inp : TxIn) (uo : TxOut)
+    (hf : ScriptSpec.FlagsOk f)
+    (hO_ecdsa : ∀ pk sg dg, O.ecdsaVerify pk sg dg = some (Model.Sig.ecdsaVerify true pk sg dg))
+    (hO_schnorr : ∀ pk sg dg, O.schnorrVerify pk sg dg = some (Model.Sig.schnorrVerify K.tagged pk sg dg))
+    (hash_same : O.hash160 = H.hash160) (hash_len : ∀ b, (H.hash160 b).length = 20)
+    (dig_legacy : ∀ sc ht, O.sigHashLegacy sc ht = some (C.legacyDigest (skeleton t) i sc ht))
+    (dig_wit : ∀ sc ht, O.sigHashWitV0 sc ht = some (C.witnessDigest (skeleton t) i sc uo.value ht))
+    (dig_tap : O.sigHashTap none [] 0 0 false = some (C.taprootDigest (skeleton t) spent i 0))
+    (hkeys : ∀ d ∈ K.secs, 0 < d ∧ d < Secp.n)
+    (hcalls : ∀ j kr, (keyTable H c.bech32 K.pubs)[j]? = some kr → CallsOk C K (skeleton t) spent i uo j kr.h160)
+    (no_clash : ∀ j kr, (keyTable H c.bech32 K.pubs)[j]? = some kr →
+      K.signer.ecdsa j (C.legacyDigest (skeleton t) i uo.script 1) ++ [1] ≠ kr.h160)
+    (no_cross : NoCross (keyTable H c.bech32 K.pubs))
+    (nonzero : ∀ (k : Nat) (kr : KeyRec), (keyTable H c.bech32 K.pubs)[k]? = some kr →
+      ScriptSpec.castToBool kr.h160 = true ∧ ScriptSpec.castToBool ((kr.pub.drop 1).take 32) = true)
+    (hwit : t.wit = none) (hin : t.ins[i]? = some inp) (hsp : spent[i]? = some uo) (hms : ms i = none)
+    (hown : OwnScript c (keyTable H c.bech32 K.pubs) uo.script)
+    (haddr : (Addr.fromPkScript H uo.script c.testnet).isSome)
+    (hss : inp.scriptSig = [] ∨ uo.script.length = 25 ∨ uo.script.length = 23) :
+    ScriptSpec.verifyScript O
+      (txCtxOf (runRaw H c (keyTable H c.bech32 K.pubs) t (spent.map some) (sigOf C K.signer spent) ms).1 i)
+      uo.script f = .ok () :=
+  signatures_verify_real H O C K f {} c ms t spent i inp uo hf hO_ecdsa hO_schnorr hash_same hash_len dig_legacy dig_wit
+    dig_tap hkeys hcalls no_clash no_cross nonzero hwit hin hsp hms hown haddr hss
 
 /-- `stringToSatoshis` on a plain decimal `w.ffffffff` (8 fraction digits) is exact below 2^64 and WRAPS above
     (DESIGN O4, outside the property's quantifier): 184467440737.09551616 BTC = 2^64 satoshi parses as 0. -/
@@ -189,9 +309,9 @@ example : isExit1 (runSend H0 c0 ks0 true [] (some send0) none (fun _ _ _ => [])
 example : ((written (runSend H0 c0 ks0 true [coin0] (some send0) none (fun _ _ _ => [0x30]))).map
     (fun w => (w.tx.ins.length, w.tx.outs.map (·.value), w.change))) = some (1, [50000000, 9999000], 9999000) := by decide +kernel
 
-/-- signatures_verify: all hypotheses discharged for the toy instance (P2PKH input) -/
+/-- signatures_verify_templates: all hypotheses discharged for the toy instance (P2PKH input) -/
 example : verifyInput C0 (runRaw H0 c0 (keyTable H0 c0.bech32 [pub0]) t0 ([uo0].map some) (sigOf C0 S0 [uo0]) (fun _ => none)).1 [uo0] 0 = true :=
-  signatures_verify H0 C0 S0 c0 [pub0] (fun _ => none) t0 [uo0] 0 inp0 uo0 rfl (by intro b; simp [H0])
+  signatures_verify_templates H0 C0 S0 c0 [pub0] (fun _ => none) t0 [uo0] 0 inp0 uo0 rfl (by intro b; simp [H0])
     (by intros; rfl) (by intro k d; simp [S0]) (by intros; rfl) (by intro k d; simp [S0]) noCross0
     (by simp [pub0]) rfl rfl rfl rfl (OwnScript.p2pkh 0 (mkKey H0 false pub0) rfl) (by decide +kernel) (Or.inl rfl)
 
